@@ -297,6 +297,25 @@ pub fn oracle(a: &Args, out: &Args) -> Option<(&'static str, String)> {
             written.push((kind, p, finished));
         }
     }
+    // C17: a well-formed stream naming another (valid) session is refused with
+    // WEBTRANSPORT_BUFFERED_STREAM_REJECTED and nothing else happens to the connection
+    if let Some(mark) = out.iter().position(|v| *v == vec![7777]) {
+        for i in 0..n {
+            let spec = &a[1 + 2 * i];
+            let b = &a[2 + 2 * i];
+            let foreign = (|| {
+                let (t, l) = varint(b)?;
+                if t != if spec[0] == 0 { 0x54 } else { 0x41 } { return None; }
+                let (sid, _) = varint(&b[l..])?;
+                if sid != 0 && sid % 4 == 0 { Some(sid) } else { None }
+            })();
+            if let (Some(sid), Some(seen)) = (foreign, out.get(mark + 1 + i)) {
+                if seen.len() < 2 || seen[0] != 1 || seen[1] != 0x3994bd84 {
+                    return Some(("C17", format!("stream for the foreign session {} was not stopped with 0x3994bd84: the peer saw {:?}", sid, seen)));
+                }
+            }
+        }
+    }
     // nothing but well-formed live-session streams: the connection has no reason to end
     let closed_early = out.len() >= 2 && out[out.len() - 2].first() != Some(&TAG_PENDING) && !out[out.len() - 2].is_empty();
     if strict == n && n > 0 && closed_early {
